@@ -84,3 +84,19 @@ Theorem C03_hkdf_expand : forall prk info L,
   (255 * 32 < L -> sm3_hkdf_expand prk info L = None /\ sha256_hkdf_expand prk info L = None).
 Proof. exact hkdf_expand_both. Qed.
 Print Assumptions C03_hkdf_expand.
+
+(* The same from ANY installed chaining state and block counter (the context structs
+   are public): this is the form in which the "> 2^32 bits" clause is exercised against
+   the implementation without hashing 512 MiB. *)
+Theorem C03_from_state_64 : forall compress out st nb (chunks : list (list N)),
+  from_state_impl compress out 64 8 len64_impl st nb chunks
+  = from_state_spec compress out 64 8 len64_spec st nb (concat chunks).
+Proof. exact from_state_64. Qed.
+Print Assumptions C03_from_state_64.
+
+Theorem C03_from_state_128 : forall compress out st nb (chunks : list (list N)),
+  (nb + N.of_nat (length (concat chunks) / 128) < 2^64)%N ->
+  from_state_impl compress out 128 16 len128_impl st nb chunks
+  = from_state_spec compress out 128 16 len128_spec st nb (concat chunks).
+Proof. exact from_state_128. Qed.
+Print Assumptions C03_from_state_128.
